@@ -752,10 +752,13 @@ def _composite_keystone_aperture(x, y, center_circle_diameter,
             rr = arr[:, 0]
             tt = arr[:, 1]
             xx, yy = polar_to_cart(rr, tt)
-            minx = min(xx)
-            maxx = max(xx)
-            miny = min(yy)
-            maxy = max(yy)
+            # the arc reaches beyond its corners where it crosses a cartesian axis
+            axes = [k*np.pi/2 for k in range(-2, 7) if lo < k*np.pi/2 < hi]
+            bx, by = polar_to_cart(np.array([outer_radius]*len(axes)), np.array(axes))
+            minx = min(*xx, *bx)
+            maxx = max(*xx, *bx)
+            miny = min(*yy, *by)
+            maxy = max(*yy, *by)
             rangex = maxx - minx
             rangey = maxy - miny
             samples = math.ceil(max((rangex/dx, rangey/dx))/2)
